@@ -26,12 +26,13 @@ type rpCase struct {
 	Variant    map[string][]string `json:"variant"`
 	Registered []string            `json:"registered"`
 	Unused     bool                `json:"unused"`
+	Place      string              `json:"place,omitempty"` // RefPositions!Places ("" = flat)
 	Used       []string            `json:"used"`
 	Missing    []string            `json:"missing"`
 	Warm       []string            `json:"warm,omitempty"` // call prefix (SchemaApi_orders) after which the assertions are repeated
 }
 
-func rpRootText(ms []rpMention) string {
+func rpRootText(ms []rpMention, place string) string {
 	var rules, lines []string
 	for i, m := range ms {
 		n0 := "@" + m.Ns[0]
@@ -69,6 +70,14 @@ func rpRootText(ms []rpMention) string {
 	}
 	var sb strings.Builder
 	sb.WriteString("{" + ann + "\n")
+	switch place {
+	case "nested":
+		sb.WriteString("\"w\": {\n")
+	case "atkey":
+		sb.WriteString("\"@w\": {\n")
+	case "item":
+		sb.WriteString("\"w\": [\n{\n")
+	}
 	for i, l := range lines {
 		// the comma goes before the annotation
 		parts := strings.SplitN(l, "|", 2)
@@ -87,6 +96,12 @@ func rpRootText(ms []rpMention) string {
 			sb.WriteString(" " + parts[1])
 		}
 		sb.WriteString("\n")
+	}
+	switch place {
+	case "nested", "atkey":
+		sb.WriteString("}\n")
+	case "item":
+		sb.WriteString("}\n]\n")
 	}
 	sb.WriteString("}")
 	return sb.String()
@@ -130,7 +145,7 @@ func rpTypeText(name string, v []string) string {
 
 func rpDump(cs rpCase) string {
 	var sb strings.Builder
-	fmt.Fprintf(&sb, "ROOT %s\n", strings.ReplaceAll(rpRootText(cs.Root), "\n", " "))
+	fmt.Fprintf(&sb, "ROOT %s\n", strings.ReplaceAll(rpRootText(cs.Root, cs.Place), "\n", " "))
 	for _, n := range []string{"a", "b", "c", "d"} {
 		reg := "withheld"
 		for _, r := range cs.Registered {
@@ -147,7 +162,7 @@ func rpDump(cs rpCase) string {
 }
 
 func rpBuild(cs rpCase, withUnused bool) (*jschema.JSchema, error) {
-	s := jschema.New("root", rpRootText(cs.Root))
+	s := jschema.New("root", rpRootText(cs.Root, cs.Place))
 	for _, n := range cs.Registered {
 		if err := s.AddType("@"+n, jschema.New("@"+n, rpTypeText(n, cs.Variant[n]))); err != nil {
 			return nil, fmt.Errorf("AddType(@%s): %v", n, err)
@@ -439,7 +454,7 @@ func runC05(c *core.Ctx) error {
 	c.AddTLC("RefPositions_quick.cfg", res)
 	if c.Thorough() {
 		cfg := "RefPositions_sim3.cfg"
-		files := map[string][]byte{cfg: []byte("SPECIFICATION Spec\nCONSTANTS\n  MaxMentions = 3\nINVARIANTS UsedIsReached MissingOnlyIfWithheld Emit\nCHECK_DEADLOCK FALSE\n")}
+		files := map[string][]byte{cfg: []byte("SPECIFICATION Spec\nCONSTANTS\n  MaxMentions = 3\n  Rotate = FALSE\nINVARIANTS UsedIsReached MissingOnlyIfWithheld Emit\nCHECK_DEADLOCK FALSE\n")}
 		before := len(cases)
 		sim, err := tlc.Run(tlc.Opts{Module: "RefPositions", Cfg: cfg, Workers: 1, Files: files, Simulate: "num=400000", Depth: 6, Seed: c.Seed, Timeout: 30 * time.Minute, OnLine: collect})
 		sim.Cleanup()
